@@ -1,5 +1,7 @@
 import NormModel.Properties.C05
 #print axioms Norm.C05.lex_total
+#print axioms Norm.C05.engine_terminates
+#print axioms Norm.C05.checkSpacing_terminates
 #print axioms Norm.C05.operator_keys
 #print axioms Norm.C05.parsers_order
 #print axioms Norm.C05.patterns_unchanged
